@@ -643,6 +643,13 @@ def gen_recon(rng):
              else rng.choice([[3, 3], [4, 3], [2, 5], [4, 4]]), seed=rng.randrange(1 << 30), b=None, consistent=int(rng.random() < 0.4))
     if rng.random() < 0.4:
         c["b"] = rng.randint(1, c["n"])
+    if c["lam"] != 0 and c["solver"] == "GradientMethod" and rng.random() < 0.5:
+        # lamda of the order of lambda_max(A^H A); only for the proximal-gradient route, whose O(1/k) rate with the default
+        # step 1/L holds for every lamda (C14.gm_route_rate) - ADMM / PDHG with fixed rho / steps converge too slowly at
+        # large lamda for a fixed iteration budget to be a sound oracle
+        c["lamrel"] = rng.choice([1.0, 4.0])
+    if c["cn"] and rng.random() < 0.3:
+        c["dead0"] = 1                            # silent first channel
     return c
 
 
@@ -657,6 +664,11 @@ def check_recon(ctx, c, origin):
     mps, coord, y, w = recon_problem(c["seed"], c["cn"], c["wg"], n=c["n"], ish=c["ish"])
     ish = list(c["ish"])
     R = int(np.prod(ish))
+    if c.get("dead0"):
+        # a silent first receive channel (all-zero sensitivity map, no signal): a coil configuration like any other
+        mps = mps.copy(); y = y.copy()
+        mps[0] = 0
+        y[0] = 0
     if c["cn"] and not c["wg"]:
         pass  # weights estimated from the zeros of y
     # weights of the documented objective
@@ -676,6 +688,9 @@ def check_recon(ctx, c, origin):
     sw = np.ones(A1.shape[0]) if wobj is None else np.sqrt(np.broadcast_to(wobj, y.shape).ravel())
     Ad = A1 * sw[:, None]                         # P F S of the documented objective  1/2 || sqrt(w) (F S x - y) ||^2
     yv = y.ravel() * sw
+    if c.get("lamrel"):
+        # lamda of the order of the largest eigenvalue of A^H A (lamda >= 0 is all the property asks for)
+        lam = float(c["lamrel"]) * float(np.linalg.norm(Ad, 2) ** 2)
     if kind == "L1WaveletRecon":
         T, Wop = haar_matrix(ish)
         # the property covers L1WaveletRecon only when its W is unitary: check numerically
